@@ -13,6 +13,7 @@ import (
 	"github.com/cnotch/xlog"
 
 	"ipchubverif/report"
+	"ipchubverif/runner"
 	"ipchubverif/vnet"
 )
 
@@ -76,8 +77,11 @@ func splits(head, maxSeg int, emit func(cuts []int)) {
 
 func main() {
 	xlog.ReplaceGlobal(xlog.New(xlog.NewNopCore()))
+	if runner.IsWorker() {
+		runner.RunWorker(append(concurrentScenarios(false), concurrentScenarios(true)...))
+	}
 	rep := report.New("C19", "exploration")
-	rep.Rule = "first lines over the method/target/version grammar of both matcher sets plus non-methods and binary prefixes x payload lengths {line only, +60 B headers, 1 KiB, 70 KiB} x every split of the first 20 bytes into <= maxSeg client segments (rest in one piece or 1-byte pieces) x optional pause longer than the sniff timeout between segments x end of script {close, silent} x service read-buffer sizes {1,2,7,8,14,15,16,64,4096}; the real Listener.serve runs on a scripted in-memory connection with the production matcher order; distinct = distinct (first line, segmentation, pause position, ending) cases"
+	rep.Rule = "first lines over the method/target/version grammar of both matcher sets plus non-methods and binary prefixes x payload lengths {line only, +60 B headers, 1 KiB, 70 KiB} x every split of the first 20 bytes into <= maxSeg client segments (rest in one piece or 1-byte pieces) x optional pause longer than the sniff timeout between segments x end of script {close, silent} x service read-buffer sizes {1,2,7,8,14,15,16,64,4096}; the real Listener.serve runs on a scripted in-memory connection with the production matcher order; plus two connections sniffed concurrently by one Listener (every schedule within the deviation bound); distinct = distinct (first line, segmentation, pause position, ending) cases / outcomes"
 	rep.Assumptions = []string{"the client is scripted in advance (one segment per Read); a pause longer than the timeout is modelled as an expired read deadline; OPTIONS with a mixed-case scheme (Rtsp://) is not judged"}
 	maxSeg := 3
 	if rep.Thorough() {
@@ -115,6 +119,7 @@ func main() {
 			})
 		}
 	})
+	runner.Run(rep, concurrentScenarios(rep.Thorough()))
 	rep.Finish()
 }
 
